@@ -60,4 +60,26 @@ PROPS = {
         "level_note": "Trusted: simulator clock/transport; honest supermajority online after GST; no adversary in liveness runs.",
         "design_ref": "DESIGN.md §4 C05",
     },
+    "C04": {
+        "engine": "agreesim", "level": "exploration", "budget": {"quick": 60, "thorough": 1200},
+        "rule": "one evaluation = one seeded run with a Byzantine adversary (split-brain instances + simulator-crafted traffic): genuine bundles/votes seen on the wire are re-assembled and tampered with one KNOWN mutation each "
+                "(duplicated voter, dropped voters, round/period/step/value changed, bottom value, flipped signature or VRF bit, identical equivocation halves, spliced vote of another step, plus valid variants with adversary votes / equivocation pairs) and delivered to honest nodes in reachable round/period contexts; "
+                "non-trivial = at least one reference-invalid crafted bundle was delivered and at least one round committed; distinct = distinct event-log digest",
+        "components": AGREE_COMPONENTS, "assumptions": AGREE_ASSUME + ["acceptance is observed behaviourally: a node emitting (relaying/broadcasting) a vote or bundle the reference rejects, signalling a quorum the reference-valid votes it was given do not carry, or committing with a certificate the reference rejects"],
+        "technique": "deterministic simulation with a Byzantine/tampering transport; independent validity checker vs observed acceptance in the real verification pipeline",
+        "level_text": "Tampered bundles and votes are injected into running simulations; a reference-invalid object must never be relayed, never let a node signal a quorum, never certify a commit. Sampling over mutation kinds x protocol contexts.",
+        "level_note": "Trusted: crypto primitives + sortition library inside the reference checker. The predicate itself is a pure function; what simulation adds is the reachable context (freshness filters, trackers, pipelined verification).",
+        "design_ref": "DESIGN.md §4 C04",
+    },
+    "C06": {
+        "engine": "agreesim", "level": "exploration", "budget": {"quick": 60, "thorough": 1200},
+        "rule": "one evaluation = one seeded run with duplication, reordering and equivocating adversary keys; a reference tally per (node, round, period, step) is fed with every reference-valid vote handed to the node; "
+                "each observable quorum signal (own bundle broadcast, cert vote after a soft quorum, commit) is checked against it; non-trivial = >=1 quorum signal checked with >=1 duplicate or equivocation delivered; distinct = distinct event-log digest",
+        "components": AGREE_COMPONENTS, "assumptions": AGREE_ASSUME + ["only-if direction: a node signals a quorum for a value only after reference weight (each sender once, an equivocator for every value) reached the threshold; the 'exactly when' direction is not asserted because the node may legitimately treat delivered votes as stale",
+                                                                         "every bundle an honest node emits must pass the independent quorum checker"],
+        "technique": "deterministic simulation; reference vote tally per node and step vs observed quorum signals; independent bundle checker",
+        "level_text": "Every observable quorum signal in every explored schedule is backed by reference weight >= threshold for that value, duplicates never add weight, equivocators count once per value, and every emitted bundle is a valid quorum proof.",
+        "level_note": "Trusted: crypto primitives + sortition in the reference tally; simulator transport.",
+        "design_ref": "DESIGN.md §4 C06",
+    },
 }
